@@ -47,6 +47,7 @@ type Encoder struct {
 	ufuncs   map[string]bool
 	mapMemSorts map[string]string
 	absDiv      bool
+	absFloat    bool
 }
 
 func NewEncoder(p *Prog, mode string) *Encoder {
